@@ -21,7 +21,17 @@ case      {"loop": select|asyncio|tornado|twisted|trio|zmq, "screen": raw|legacy
           piece is produced as soon as the screen has read the previous one - so a multi-byte key may arrive
           over several reads of the tty and a resize may share an input batch with keys).  The last event
           is always the key 'q', which the unhandled-input handler answers with ExitMainLoop.
+          ["restart"] (an alarm whose callback does loop.screen.stop(); loop.screen.start(): the display is
+          given up and taken again in the middle of the session, as an application does around a subprocess).
           optional "faults": false  (a delivery-sweep unit: run once, no exception injected)
+          optional "handlers": "args" (default; MainLoop(input_filter=f, unhandled_input=g)) | "methods" (a
+          MainLoop subclass overriding the public input_filter / unhandled_input methods - the other spelling
+          the manual and the docstrings offer)
+          optional "history": [{"script": [...], "inject": null | [i, kind, callback kind]}, ...]  earlier
+          sessions, each one a run() of its own on the SAME MainLoop / event loop / screen / widgets, in order,
+          before the session of the case (its "script" / "inject"); scripts without bursts, not on twisted (its
+          reactor cannot be started twice).  Every run is judged by the whole oracle; widget state, topmost
+          widget, terminal size and the terminal itself carry over from run to run.
 
 run       One forked child per case.  The child opens a pty pair, gives the slave side (two descriptors of their
           own, like stdin / stdout) to a real ``urwid.display.raw.Screen`` (subclassed only to report
@@ -89,16 +99,24 @@ RULE = (
     "inside one batch and across batches, loop.widget reassigned by a keypress / by the unhandled handler inside a "
     "batch, type-ahead bursts whose pieces arrive as soon as the screen has read the previous piece: keys, UTF-8 "
     "characters and mouse reports cut inside their byte sequence, a resize before / between / behind keys of the "
-    "same burst, after a resize of its own) plus sessions drawn from a seeded generator (plain | pop-up | swap | "
-    "both; bursts with 0-3 cuts at any byte) "
-    "(2-8 events). Delivery sweeps, run once each without injection: every way of cutting each multi-byte key of "
+    "same burst, after a resize of its own, the display stopped and started again from an alarm callback "
+    "(loop.screen.stop(); loop.screen.start()), run() called again on the same MainLoop / event loop / screen / "
+    "widgets after earlier sessions that ended by the handler's ExitMainLoop or by an exception from some callback "
+    "- with a pop-up left open or loop.widget replaced by an earlier run) plus sessions drawn from a seeded "
+    "generator (plain | pop-up | swap | both; bursts with 0-3 cuts at any byte; restarts of the display; 0-2 "
+    "earlier runs, each ended by 'q' or by {ExitMainLoop, Boom, SystemExit} from a callback kind drawn at random) "
+    "(2-8 events). The two handlers are given as constructor arguments or as overridden MainLoop.input_filter / "
+    "MainLoop.unhandled_input methods, alternating from unit to unit. "
+    "Delivery sweeps, run once each without injection: every way of cutting each multi-byte key of "
     "the key table and one mouse report per action in two; every documented mouse event {press 1-5, drag 1-3, "
     "release 1-3} x {none, shift, meta, ctrl}; a resize at each place among two keys x every choice of piece "
-    "boundaries x with / without a resize just before. "
+    "boundaries x with / without a resize just before; three run() calls on one MainLoop where the first is "
+    "ended by the first callback of each of the 8 kinds raising each of the 3 exception kinds and the second by "
+    "a later callback of another (kind, exception) pair (every pair once in either place; not on twisted). "
     "Units: every session x {select, asyncio, tornado, twisted, trio, zmq} on the raw screen + "
     "the default loop on a screen without hook_event_loop (MainLoop._run_screen_event_loop), pop_ups and the "
     "other flags alternating (quick) or crossed (thorough). For every unit that is not a sweep the session is first run without "
-    "injection to learn its N user-callback invocations; then one run per (i < N) x {ExitMainLoop, "
+    "injection to learn the N user-callback invocations of its last run(); then one run per (i < N) x {ExitMainLoop, "
     "Boom(Exception), SystemExit (quick: every other i)} with the exception raised by invocation i. Each run is "
     "a forked child on a fresh pty pair. Non-trivial: the injection hits an invocation other than the first on "
     "a loop other than SelectEventLoop-with-raw-screen; distinct = distinct (unit, i, kind). A failing case is "
@@ -139,6 +157,20 @@ ASSUMPTIONS = [
     "PopUpLauncher / pop_ups=True) is when that key's turn comes, also for later keys of the same batch; mouse "
     "clicks while a pop-up is open are not generated (Overlay geometry decides their target: discarded)",
     "true signal-vs-read races inside the kernel are not enumerated: the schedule is the scripted order",
+    "overriding MainLoop.input_filter / MainLoop.unhandled_input in a subclass is a supported way to supply the "
+    "two handlers (the manual refers to them as methods to use; their docstrings describe 'this implementation' "
+    "as forwarding to the constructor argument): same obligations as for the constructor arguments",
+    "MainLoop.run() may be called again on the same object after it returned or raised (start()/stop() acquire and "
+    "release everything per run); every run is a session of the property: the terminal (one reference terminal "
+    "for all runs), its size, the widgets' state and the topmost widget carry over, the terminal must be back in "
+    "its initial modes after every run and in the start modes at the first draw of every run. Earlier runs have "
+    "no type-ahead bursts; the watches a session writes to are registered before its own run(); a case whose "
+    "earlier run ended with a resize signalled but not yet reported, or with widget / handler calls after the "
+    "first exception, is discarded (what the next run then sees is not in the statement). Not on twisted "
+    "(ReactorNotRestartable)",
+    "loop.screen.stop(); loop.screen.start() from an alarm callback (the display handed to something else and "
+    "taken back; docs/changelog: 'Fix screen.stop(), screen.start() disabling mouse events'): the next draw is "
+    "judged like a first draw (start modes on, the whole widget state visible on the cleared alternate buffer)",
 ]
 
 LOOPS = ["select", "asyncio", "tornado", "twisted", "trio", "zmq"]
@@ -238,7 +270,7 @@ def event_ok(ev, inner=False):
         return len(ev) == 3 and all(isinstance(x, int) and x > 0 for x in ev[1:])
     if inner:
         return False
-    if t in ("alarm", "pipe", "file"):
+    if t in ("alarm", "pipe", "file", "restart"):
         return len(ev) == 1
     if t == "burst":
         if len(ev) not in (2, 3) or not ev[1] or not all(event_ok(sub, True) for sub in ev[1]):
@@ -374,10 +406,25 @@ def model_unh(case, m, key):
     return m
 
 
+def sessions_of(case):
+    """the sessions of the case in the order they are run: the history, then the session that is injected into"""
+    return [*[{"script": s["script"], "inject": s.get("inject")} for s in case.get("history") or []],
+            {"script": case["script"], "inject": case.get("inject")}]
+
+
 def malformed(case):
     tree, sw = case.get("tree"), case.get("swap")
-    script = case["script"]
-    if not script or script[-1] != ["keys", "q"] or not all(event_ok(ev) for ev in script):
+    for k, s in enumerate(sessions_of(case)):
+        script, inj = s["script"], s["inject"]
+        if not script or script[-1] != ["keys", "q"] or not all(event_ok(ev) for ev in script):
+            return True
+        if inj is not None and not (isinstance(inj, list) and len(inj) in (2, 3) and inj[1] in EXC_NAME):
+            return True
+        if k < len(case.get("history") or []) and any(ev[0] == "burst" for ev in script):
+            return True  # input that is still on its way when a run ends: the statement is silent about it
+    if case.get("history") and case["loop"] == "twisted":
+        return True  # ReactorNotRestartable: Twisted's own rule
+    if case.get("handlers", "args") not in ("args", "methods"):
         return True
     if tree and (tree.get("kind") != "popup" or not case["pop_ups"]):
         return True
@@ -408,14 +455,10 @@ class _Harness:
         self.master = master
         self.stall = stall
         self.emit = emit
-        self.log = []
-        self.n = 0
-        self.inject = case.get("inject")
-        self.exc = None
-        self.script = case["script"]
-        self.pos = 0
-        self.outstanding = None  # ["input", input events not yet seen by the filter, a "window resize" is due]
-        self.pending = []  # pieces of the current input event that have not been produced yet
+        self.run_no = 0
+        self.reports = []  # of the runs that are over
+        self.keep = []  # watch handles
+        self.begin(0, {"script": case["script"], "inject": case.get("inject")})
         self.state = 0
         self.ml = None
         self.pipe_wr = None
@@ -423,6 +466,20 @@ class _Harness:
         self.widgets = []
         self.make_probe = None
         self.file_rd = self.file_wr = None
+        self.phase = "setup"
+
+    def begin(self, k, session):
+        """run number k of the case starts: its own log, invocation counter, injection and script; the widgets,
+        their state, the MainLoop, its event loop and the screen stay"""
+        self.run_no = k
+        self.log = []
+        self.n = 0
+        self.inject = session.get("inject")
+        self.exc = None
+        self.script = session["script"]
+        self.pos = 0
+        self.outstanding = None  # ["input", input events not yet seen by the filter, a "window resize" is due]
+        self.pending = []  # pieces of the current input event that have not been produced yet
         self.phase = "setup"
 
     # -- plumbing ---------------------------------------------------------------------------
@@ -511,9 +568,9 @@ class _Harness:
         self.enter("alarm", data)
         self.arrived("alarm")
 
-    def file_cb(self):
+    def file_cb(self, rd):
         try:
-            os.read(self.file_rd, 64)
+            os.read(rd, 64)
         except OSError:
             pass
         self.enter("file")
@@ -529,7 +586,15 @@ class _Harness:
             self.advance()
 
     def next_is_alarm(self):
-        return self.pos < len(self.script) and self.script[self.pos][0] == "alarm"
+        return self.pos < len(self.script) and self.script[self.pos][0] in ("alarm", "restart")
+
+    def restart_cb(self, loop, data):
+        """the application gives the display up and takes it again (e.g. around a subprocess that uses the tty)"""
+        self.enter("alarm", "restart")
+        self.ml.screen.stop()
+        self.log.append(["restarted"])
+        self.ml.screen.start()
+        self.arrived("restart")
 
     # -- the driver -------------------------------------------------------------------------
     def produce(self):
@@ -570,6 +635,9 @@ class _Harness:
         elif t == "alarm":
             self.outstanding = ("alarm",)
             self.ml.set_alarm_in(0.01, self.alarm_cb, self.pos - 1)
+        elif t == "restart":
+            self.outstanding = ("restart",)
+            self.ml.set_alarm_in(0.01, self.restart_cb, self.pos - 1)
         elif t == "pipe":
             self.outstanding = ("pipe",)
             os.write(self.pipe_wr, b"p")
@@ -659,7 +727,7 @@ def _child_body(case, stall, emit):
 
     def on_stall(signum, frame):
         emit({"stalled": True, "phase": h.phase, "log": h.log, "n": h.n, "pos": h.pos,
-              "outstanding": _jsonable(h.outstanding)})
+              "outstanding": _jsonable(h.outstanding), "prior": h.reports})
         os._exit(0)
 
     signal.signal(signal.SIGALRM, on_stall)
@@ -759,20 +827,41 @@ def _child_body(case, stall, emit):
         for name, num in _SIGS.items():
             signal.signal(num, signal.SIG_DFL)
 
-    ml = urwid.MainLoop(
-        root, [], screen=screen, handle_mouse=True, input_filter=h.input_filter,
-        unhandled_input=h.unhandled, event_loop=loop, pop_ups=case["pop_ups"],
-    )
+    if case.get("handlers", "args") == "methods":
+        # the other way to supply the two handlers: "this implementation" of MainLoop.input_filter /
+        # MainLoop.unhandled_input (which only forwards to the constructor argument) is overridden
+        class MethodsLoop(urwid.MainLoop):
+            def input_filter(self, keys, raw):
+                return h.input_filter(keys, raw)
+
+            def unhandled_input(self, data):
+                return h.unhandled(data)
+
+        ml = MethodsLoop(root, [], screen=screen, handle_mouse=True, event_loop=loop, pop_ups=case["pop_ups"])
+    else:
+        ml = urwid.MainLoop(
+            root, [], screen=screen, handle_mouse=True, input_filter=h.input_filter,
+            unhandled_input=h.unhandled, event_loop=loop, pop_ups=case["pop_ups"],
+        )
     h.ml = ml
-    keep = []
-    kinds = {ev[0] for ev in case["script"]}
+    sessions = sessions_of(case)
+    for k, session in enumerate(sessions):
+        h.begin(k, session)
+        h.reports.append(_one_run(h, ml, real, slave, fout))
+    return dict(h.reports[-1], prior=h.reports[:-1])
+
+
+def _one_run(h, ml, real, slave, fout):
+    """one run() of the MainLoop: -> what the harness saw of it"""
+    # the watches this session writes to are registered before its run() (whether a watch outlives the run() it
+    # was registered for differs from loop to loop and is not in the statement: nothing relies on it)
+    kinds = {ev[0] for ev in h.script}
     if "pipe" in kinds:
         h.pipe_wr = ml.watch_pipe(h.pipe_cb)
     if "file" in kinds:
         h.file_rd, h.file_wr = os.pipe()
         os.set_blocking(h.file_rd, False)
-        keep.append(ml.watch_file(h.file_rd, h.file_cb))
-
+        h.keep.append(ml.watch_file(h.file_rd, lambda rd=h.file_rd: h.file_cb(rd)))
     before_t = _termios_json(slave)
     before_s = {name: signal.getsignal(num) for name, num in _SIGS.items()}
     h.phase = "run"
@@ -895,22 +984,45 @@ def _fmt(entries, limit=14):
 
 
 def check_report(case, rep):
-    """-> list of Violation (every clause that fails; empty = the property held on this run)"""
-    log = rep["log"]
+    """-> list of Violation (every clause that fails; empty = the property held on every run of the case)"""
+    sessions = sessions_of(case)
+    runs = [*rep.get("prior", []), rep]
     cols, rows = case["size"]
-    vt = VT(cols, rows)
+    # what one run leaves to the next: the terminal, its size(s), the widgets' state and which probe is topmost
+    carry = {"vt": VT(cols, rows), "size": [cols, rows], "sizes": [[cols, rows]], "state": 0,
+             "model": model_start(case)}
+    for k, (session, run) in enumerate(zip(sessions, runs)):
+        last = k == len(sessions) - 1
+        r = check_run(dict(case, script=session["script"], inject=session["inject"]), run, carry, last)
+        if r == "stall-unattributed" or (r and not last) or (run["stalled"] and not last):
+            if isinstance(r, list) and not last:
+                r = [Violation(v.clause, f"{v.message} [in run #{k + 1} of {len(sessions)} on the same MainLoop]")
+                     for v in r]
+            return r or "stall-unattributed"
+        if last:
+            return r
+    raise AssertionError("no run reported")
+
+
+def check_run(case, rep, carry, last):
+    """one run() of the case (`case` holds this run's script and injection) -> list of Violation; updates `carry`"""
+    log = rep["log"]
+    cols, rows = carry["size"]
+    vt = carry["vt"]
     exp_inputs = expected_inputs(case)
     relaxed = resize_in_burst(case)  # then only the number of resize events seen is compared, not their place
     exp_plain = [x for x in exp_inputs if x != "window resize"]
     seen_inputs = []  # what the filter has been given so far
-    sizes = [[cols, rows]]  # every size the terminal has had
+    sizes = carry["sizes"]  # every size the terminal has had
     resizes = 0  # resizes the terminal has gone through
     queue = []  # callbacks still owed for the last filter call
-    state = 0  # number of input events the widgets have received
-    model = model_start(case)  # which probe is topmost
+    state = carry["state"]  # number of input events the widgets have received
+    model = carry["model"]  # which probe is topmost
+    after_raise = 0  # widget / handler calls logged after the first exception
     raised = None  # ["raise", i, kind, callback]
     who = ""
     resize_pending = False
+    resize_batch = False  # the input being processed (last filter call, no draw since) holds "window resize"
     draws = 0
     drawn_state = None
     for pos, e in enumerate(log):
@@ -919,6 +1031,8 @@ def check_report(case, rep):
             if raised is None:
                 raised = e
                 who = e[3]
+                if resize_batch:
+                    resize_pending = True  # the batch that reported the resize was cut short by the exception
                 if who == "render":
                     # PopUpTarget renders from keypress / mouse_event too; otherwise render runs from the idle redraw
                     owed = [q for q in queue if q[0] != "unh?"]
@@ -938,9 +1052,14 @@ def check_report(case, rep):
             continue
         if kind == "prev-handler":
             continue
+        if kind == "restarted":
+            draws = 0  # the display has been stopped and is started again: the next draw is a first draw
+            continue
         if kind == "draw":
             vt.feed(bytes.fromhex(e[1]))
             draws += 1
+            if raised is None:
+                resize_batch = False
             if draws == 1:
                 want = {"alt_screen": True, "bracketed_paste": case["bp"], "focus_events": case["focus"],
                         "mouse": True, "mouse_sgr": True}
@@ -968,6 +1087,8 @@ def check_report(case, rep):
                 drawn_state = (state, model["top"])
             continue
         if raised is not None:
+            if kind in ("key", "mouse", "unh"):
+                after_raise += 1
             continue  # callbacks after the first exception: nothing is asserted
         if kind == "filter":
             keys = e[2]
@@ -994,6 +1115,7 @@ def check_report(case, rep):
                     f"the input filter has been given {seen_inputs}, the terminal sent {exp_inputs}"
                     + (f" ({resizes} resizes so far)" if relaxed else ""),
                 )]
+            resize_batch = "window resize" in keys
             if "window resize" in keys:
                 resize_pending = False
             m = model  # walk the model through the batch: [callback, input, probe that must get it, model after]
@@ -1052,7 +1174,12 @@ def check_report(case, rep):
                         f"{got[1]!r} was passed to probe {e[3]!r} with size {size!r}; the terminal has had the "
                         f"sizes {sizes}; log: {_fmt(log[:pos + 1])}",
                     )]
-            model = queue.pop(0)[3]
+            owed = queue.pop(0)
+            if pos + 1 < len(log) and log[pos + 1][0] == "raise" and log[pos + 1][1] == e[1]:
+                # this very invocation raised: an injected exception leaves the callback before the probe / the
+                # handler does anything ('q', the handler's own ExitMainLoop, changes nothing either)
+                continue
+            model = owed[3]
             if kind in ("key", "mouse"):
                 state += 1
             continue
@@ -1067,6 +1194,13 @@ def check_report(case, rep):
                 f"{who} raised {EXC_NAME[raised[2]]} but run() went on waiting; log: {_fmt(log)}",
             )]
         o = rep.get("outstanding")
+        owed = [q for q in queue if q[0] != "unh?"]
+        if owed:
+            return [Violation(
+                "call-missing",
+                f"{owed[0][:2]} was still owed for input the filter had passed on, and the loop went on waiting; "
+                f"log: {_fmt(log)}",
+            )]
         if o is None and state > 0 and drawn_state != (state, model["top"]):
             return [Violation(
                 "no-redraw-before-wait",
@@ -1084,6 +1218,13 @@ def check_report(case, rep):
     out = rep["outcome"]
     if raised is None:
         return [Violation("spurious-end", f"run() ended ({out}) although no callback raised; log: {_fmt(log)}")]
+    carry.update(size=[cols, rows], state=state, model=model)
+    if not last and (resize_pending or after_raise):
+        # a resize signalled but not yet reported when run() ended (or reported in the very batch the exception
+        # cut short: MainLoop then still remembers the old size), or widgets / handlers called after the first
+        # exception: what the next run() must then see is not in the statement
+        _stat("history:run-ended-with-" + ("resize-pending" if resize_pending else "calls-after-raise"))
+        raise Discard()
     found = []
     if raised[2] == "exit":
         if out["how"] != "returned":
@@ -1239,7 +1380,32 @@ FIXED_SESSIONS = [
     {"handled": ["a"], "filter": {"drop": [], "map": []},
      "script": [["resize", 24, 6], ["burst", [["resize", 30, 7], ["keys", "a", "b"]], [[1, 0]]],
                 ["burst", [["keys", "x"], ["resize", 16, 4], ["keys", "y"]], [[2, 0]]], Q]},
+    # the display is stopped and started again from a callback (loop.screen.stop() ... loop.screen.start()), with
+    # and without input in between
+    {"handled": ["a"], "filter": {"drop": [], "map": []},
+     "script": [["keys", "a"], ["restart"], ["keys", "b"], ["restart"], ["alarm"], ["restart"], ["mouse", 1, 2, 1], Q]},
+    # run() is called again on the same MainLoop: after a run ended by an exception from an alarm and a run ended
+    # by the handler's ExitMainLoop
+    {"handled": ["a"], "filter": {"drop": [], "map": []},
+     "history": [{"script": [["keys", "a"], ["alarm"], Q], "inject": [0, "boom", "alarm"]},
+                 {"script": [["keys", "b"], Q], "inject": None}],
+     "script": [["keys", "a", "b"], ["alarm"], ["mouse", 1, 2, 1], Q]},
+    # ... with a pop-up left open by the first run, a run ended by SystemExit from a watched file, and the pop-up
+    # closed in the third run
+    {"handled": ["a"], "filter": {"drop": [], "map": []}, "tree": {"kind": "popup", "open": ["f5"], "close": ["enter"]},
+     "history": [{"script": [["keys", "a", "f5"], Q], "inject": None},
+                 {"script": [["keys", "b"], ["file"], Q], "inject": [0, "abort", "file"]}],
+     "script": [["keys", "x", "enter", "a"], ["pipe"], Q]},
+    # ... with loop.widget replaced in an earlier run, which the input filter ends with ExitMainLoop; a resize in
+    # the run after it; a restart of the display in the last one
+    {"handled": ["b"], "filter": {"drop": [], "map": []}, "swap": {"key": "x", "where": "key"},
+     "history": [{"script": [["keys", "x"], ["keys", "a"], Q], "inject": [4, "exit", "filter"]},
+                 {"script": [["resize", 26, 6], ["keys", "b"], Q], "inject": [3, "boom", "key"]}],
+     "script": [["keys", "x", "b"], ["restart"], ["keys", "a"], Q]},
 ]
+
+# a short session in which every kind of callback runs (for the sweep over the ways an earlier run can end)
+ALL_KINDS = [["keys", "a"], ["alarm"], ["mouse", 2, 1, 1], ["pipe"], ["keys", "b"], ["file"], Q]
 
 
 def sweep_sessions():
@@ -1277,6 +1443,15 @@ def sweep_sessions():
                 subs.insert(where, ["resize", 30 - n, 5 + n])
                 script.append(["burst", subs, cuts])
             out.append(dict(plain, handled=["a"], script=[*script, Q]))
+    # run() three times on one MainLoop: every way an earlier run can end - {ExitMainLoop, Boom, SystemExit} raised
+    # by the first callback of each kind - once as the first run and once (a later invocation) as the second,
+    # before a run that is ended by the handler's ExitMainLoop
+    endings = [(cb, kind) for cb in CALLBACKS for kind in EXC_NAME]
+    for j, (cb, kind) in enumerate(endings):
+        cb2, kind2 = endings[(7 * j + 5) % len(endings)]
+        out.append(dict(plain, handled=["a"], script=[["keys", "a", "b"], ["mouse", 1, 0, 0], Q],
+                        history=[{"script": ALL_KINDS, "inject": [0, kind, cb]},
+                                 {"script": ALL_KINDS, "inject": [6, kind2, cb2]}]))
     return out
 
 
@@ -1305,16 +1480,13 @@ def gen_burst(rng, mouse):
     return ["burst", subs, cuts]
 
 
-def gen_session(rng, legacy_ok):
-    mode = rng.choice(["plain", "plain", "popup", "swap", "both"])
-    mouse = mode in ("plain", "swap")  # no clicks while a pop-up may be open
-    n = rng.randint(1, 7)
+def gen_script(rng, legacy_ok, mouse, bursts, n):
     script = []
     for _ in range(n):
-        t = rng.choice(["keys", "keys", "keys", "burst", "burst", "mouse", "resize", "alarm", "pipe", "file"])
+        t = rng.choice(["keys", "keys", "keys", "burst", "burst", "mouse", "resize", "alarm", "pipe", "file", "restart"])
         if t in ("pipe", "file") and legacy_ok:
             t = "alarm"
-        if t == "mouse" and not mouse:
+        if (t == "mouse" and not mouse) or (t == "burst" and not bursts):
             t = "keys"
         if t == "keys":
             script.append(gen_keys(rng))
@@ -1327,6 +1499,26 @@ def gen_session(rng, legacy_ok):
         else:
             script.append([t])
     script.append(list(Q))
+    return script
+
+
+def gen_history(rng, legacy_ok, mouse):
+    """0-2 earlier runs on the same MainLoop, each ended by 'q' or by an exception from some callback"""
+    out = []
+    for _ in range(rng.choice([0, 0, 0, 1, 1, 2])):
+        script = gen_script(rng, legacy_ok, mouse, False, rng.randint(1, 4))
+        inj = None
+        if rng.random() < 0.7:
+            inj = [rng.randint(0, 12), rng.choice(list(EXC_NAME)), rng.choice(CALLBACKS)]
+        out.append({"script": script, "inject": inj})
+    return out
+
+
+def gen_session(rng, legacy_ok):
+    mode = rng.choice(["plain", "plain", "popup", "swap", "both"])
+    mouse = mode in ("plain", "swap")  # no clicks while a pop-up may be open
+    script = gen_script(rng, legacy_ok, mouse, True, rng.randint(1, 7))
+    history = gen_history(rng, legacy_ok, mouse)
     names = [k for k in KEYS if k != "q"]
     handled = sorted(rng.sample(names, rng.randint(0, 4))) + [f"mouse{b}" for b in (1, 2, 3, 4, 5) if rng.random() < 0.4]
     drop = sorted(rng.sample(names, rng.randint(0, 2)))
@@ -1335,8 +1527,11 @@ def gen_session(rng, legacy_ok):
         a, b = rng.sample([k for k in names if k not in drop], 2)
         pairs.append([a, b])
     out = {"handled": handled, "filter": {"drop": drop, "map": pairs}, "script": script}
+    if history:
+        out["history"] = history
     reach = [k for k in names if k not in drop and k not in [a for a, _b in pairs] and k != REDRAW_KEY]
-    typed = [k for ev in script for k in inputs_of(ev) if isinstance(k, str) and k in reach]
+    typed = [k for s_ in [*history, out] for ev in s_["script"] for k in inputs_of(ev)
+             if isinstance(k, str) and k in reach]
     if mode in ("popup", "both"):
         # openers / closers preferably among the keys the session types
         pool = (typed + reach)[:]
@@ -1353,6 +1548,16 @@ def legacy_script(script):
     return [(["alarm"] if ev[0] in ("pipe", "file") else list(ev)) for ev in script]
 
 
+def legacy_history(history):
+    out = []
+    for s in history:
+        inj = s.get("inject")
+        if inj is not None and len(inj) > 2 and inj[2] in ("pipe", "file"):
+            inj = [inj[0], inj[1], "alarm"]
+        out.append({"script": legacy_script(s["script"]), "inject": inj})
+    return out
+
+
 def units(ctx):
     rng = random.Random(f"{ctx.seed}/C12/sessions")
     sessions = [dict(s) for s in FIXED_SESSIONS]
@@ -1363,6 +1568,8 @@ def units(ctx):
     k = 0
     for si, s in enumerate(sessions):
         configs = [(lp, "raw") for lp in LOOPS] + [("select", "legacy")]
+        if s.get("history") and s.get("faults") is False:
+            configs.remove(("twisted", "raw"))  # nothing but the history to look at: see below
         for lp, scr in configs:
             if ctx.tier == "quick":
                 variants = [((si + k) % 2 == 1, (si + k) % 3 != 0)]
@@ -1378,10 +1585,14 @@ def units(ctx):
                     "handled": s["handled"], "filter": s["filter"],
                     "script": legacy_script(s["script"]) if scr == "legacy" else s["script"],
                     "inject": None,
+                    # the two handlers as constructor arguments / as overridden MainLoop methods
+                    "handlers": "methods" if (si + k) % 4 in (1, 2) else "args",
                 }
                 for opt in ("tree", "swap"):
                     if s.get(opt):
                         u[opt] = s[opt]
+                if s.get("history") and lp != "twisted":  # a Twisted reactor cannot be started a second time
+                    u["history"] = legacy_history(s["history"]) if scr == "legacy" else s["history"]
                 if s.get("faults") is False:
                     u["faults"] = False
                 out.append(u)
@@ -1424,9 +1635,15 @@ def _shrink(case, v, seconds):
             return attempt(cand)
         return any(attempt(dict(cand, inject=[j, inj[1], inj[2]])) for j in range(inj[0], -1, -1))
 
-    for key in ("swap", "tree"):
+    for key in ("swap", "tree", "handlers"):
         if key in best:
             attempt({k: v_ for k, v_ in best.items() if k != key})
+    while best.get("history"):  # fewer earlier runs: the first one, then the one just before the last
+        h_ = best["history"]
+        if not (attempt(dict(best, history=h_[1:])) or (len(h_) > 1 and attempt(dict(best, history=h_[:-1])))):
+            break
+    if best.get("history") == []:
+        best = {k: v_ for k, v_ in best.items() if k != "history"}
     for key, plain in (("pop_ups", False), ("bp", False), ("focus", False), ("sigs", "default"),
                        ("filter", {"drop": [], "map": []}), ("handled", [])):
         attempt(dict(best, **{key: plain}))
@@ -1550,7 +1767,26 @@ def _known_idle_exception_lost(loop):
     return pred
 
 
+def _known_trio_rerun(sub, case, v):
+    # same root cause as C13-trio-remove-outside-run: TrioEventLoop._cancel_scope reads CancelScope.cancel_called,
+    # which asks the trio clock for a scope that has not been entered yet - RuntimeError outside trio.run().  After
+    # a run() that an exception ended, MainLoop._run stops the screen only; Screen._stop's INPUT_DESCRIPTORS_CHANGED
+    # re-hooks the input descriptors (watch tasks left pending, scopes never entered), and the next run()'s
+    # MainLoop.start() -> screen.start() -> unhook_event_loop() -> remove_watch_file() raises out of run(), the
+    # display stays started
+    return (
+        case["loop"] == "trio"
+        and case["screen"] == "raw"
+        and bool(case.get("history"))
+        and v.clause == "spurious-end"
+        and "'type': 'RuntimeError'" in v.message
+        and "must be called from async context" in v.message
+        and "trio_loop.py:_cancel_scope" in v.message
+    )
+
+
 KNOWN = {
+    "C12-trio-run-again-after-exception": _known_trio_rerun,
     "C12-zmq-termios-not-restored": _known_zmq_termios,
     "C12-sigcont-handler-lost": _known_sigcont,
     "C12-tornado-idle-exception-lost": _known_idle_exception_lost("tornado"),
